@@ -924,10 +924,31 @@ def oracle_case(R, case: Dict[str, Any]) -> Optional[str]:
         if kind == "rank":
             files = case["files"]
             outs = []
-            for order in (files, list(reversed(files)), case.get("shuffled", files)):
+            orders = [files, list(reversed(files)), case.get("shuffled", files)]
+            if case.get("perms"):
+                # every listing order of small sets, a fixed sample of larger ones (seeded by the input: replays exactly)
+                import itertools
+                import random as _random
+                if len(files) <= 4:
+                    orders += [list(p) for p in itertools.permutations(files)]
+                else:
+                    prng = _random.Random(repr(files))
+                    orders += [sorted(files), sorted(files, reverse=True)]
+                    for _ in range(int(case["perms"])):
+                        o = list(files)
+                        prng.shuffle(o)
+                        orders.append(o)
+            chosen = []
+            for order in orders:
                 cands = [R.filename_to_candidate(None, f) for f in order]
                 ok = [c for c in cands if R.check_usability(None, c, allow_prereleases=True) is None]
                 outs.append([c.filename for c in R.sort_candidates(ok)])
+                if case.get("through_repo") and ok:
+                    chosen.append((_repo_choice(R, order), order))
+            if chosen and any(c[0] != chosen[0][0] for c in chosen):
+                other = [c for c in chosen if c[0] != chosen[0][0]][0]
+                return ("get_dist of a repository listing the same files hands out {} (listing {}) or {} (listing {})"
+                        .format(chosen[0][0], chosen[0][1], other[0], other[1]))
             for out in outs:
                 seen_sdist = False
                 for f in out:
@@ -939,6 +960,61 @@ def oracle_case(R, case: Dict[str, Any]) -> Optional[str]:
                 return "ranking depends on the listing order: {} vs {}".format(outs[0], [o for o in outs if o != outs[0]][0])
             return None
     return None
+
+
+def _repo_choice(R, listing: List[str]) -> Optional[str]:
+    """the file an in-memory repository that lists `listing` in this order hands out for the bare requirement
+    (Repository.get_dist -> do_get_candidate: filter, sort, first resolvable candidate)"""
+    import pkg_resources
+    from req_compile.containers import DistInfo
+
+    class ListedRepo(R.Repository):
+        def __init__(self) -> None:
+            super().__init__("c20-oracle")
+
+        def get_candidates(self, req):
+            return [c for c in (R.filename_to_candidate(("memory://", f), f) for f in listing) if c is not None]
+
+        def resolve_candidate(self, candidate):
+            return DistInfo(candidate.name, candidate.version, []), False
+
+    name = R.filename_to_candidate(None, listing[0]).name
+    try:
+        dist, _ = ListedRepo().get_dist(pkg_resources.Requirement.parse(name))
+    except Exception as ex:  # noqa: BLE001 - e.g. NoCandidateException when nothing is eligible
+        return "!" + type(ex).__name__
+    cand = getattr(dist, "candidate", None)
+    return getattr(cand, "filename", None) if cand is not None else None
+
+
+def equal_score_case(rng, cfg) -> Optional[Dict[str, Any]]:
+    """same-version wheels that differ in their interpreter, ABI or platform tags but are EQUALLY specific (equal tag
+    score): py3 vs py2.py3, cp<Mm>-abi3-P vs cp<Mm>-none-P, manylinux1 vs manylinux_2_5, manylinux2014 vs
+    manylinux_2_17 - together with differently scored wheels and the sdists.  Only the file name can order them."""
+    M, m, arch = cfg["major"], cfg["minor"], cfg["arch"]
+    cp = "%s%d%d" % (cfg["impl"], M, m)
+    plat = cfg["platform_tags"][0] if cfg["platform_tags"] else "linux_" + arch
+    pairs = [["demo_pkg-1.0-py%d-none-any.whl" % M, "demo_pkg-1.0-py2.py3-none-any.whl"],
+             ["demo_pkg-1.0-%s-%s-%s.whl" % (cp, cfg["abi_tags"][0], plat), "demo_pkg-1.0-%s-none-%s.whl" % (cp, plat)],
+             ["demo_pkg-1.0-py%d-none-%s.whl" % (M, plat), "demo_pkg-1.0-py2.py3-none-%s.whl" % plat]]
+    g = cfg["glibc"]
+    if g is not None and tuple(g) >= (2, 5) and arch in ("x86_64", "i686"):
+        pairs.append(["demo_pkg-1.0-py%d-none-manylinux1_%s.whl" % (M, arch), "demo_pkg-1.0-py%d-none-manylinux_2_5_%s.whl" % (M, arch)])
+        if tuple(g) >= (2, 12):
+            pairs.append(["demo_pkg-1.0-%s-none-manylinux2010_%s.whl" % (cp, arch), "demo_pkg-1.0-%s-none-manylinux_2_12_%s.whl" % (cp, arch)])
+    if g is not None and tuple(g) >= (2, 17):
+        pairs.append(["demo_pkg-1.0-py%d-none-manylinux2014_%s.whl" % (M, arch), "demo_pkg-1.0-py%d-none-manylinux_2_17_%s.whl" % (M, arch)])
+    others = ["demo_pkg-1.0-%s-%s-%s.whl" % (cp, cfg["abi_tags"][-1], plat), "demo_pkg-1.0.tar.gz", "demo_pkg-1.0.zip",
+              "demo_pkg-1.0-1-py%d-none-any.whl" % M, "demo_pkg-1.0-py%d-none-any.%s.whl" % (M, plat)]
+    files: List[str] = []
+    for pr in rng.sample(pairs, rng.choice([1, 1, 2, len(pairs)])):
+        files += pr
+    files += rng.sample(others, rng.choice([0, 1, 2, len(others)]))
+    files = list(dict.fromkeys(files))
+    rng.shuffle(files)
+    sh = files[:]
+    rng.shuffle(sh)
+    return {"kind": "rank", "cfg": cfg, "files": files, "shuffled": sh, "perms": 40, "through_repo": True}
 
 
 def platform_rank_case(rng, cfg, tags, legacy_only: bool) -> Optional[Dict[str, Any]]:
@@ -979,6 +1055,9 @@ def oracle_cases(rng, R, n: int):
             raw["glibc"] = [2, raw["glibc"][1]]
         cfg = impl_cfg_of(R, raw)
         r = rng.random()
+        if r > 0.96:
+            yield equal_score_case(rng, cfg)
+            continue
         if r < 0.02:
             plats = rng.sample(["any", "linux_" + cfg["arch"], "manylinux_2_17_" + cfg["arch"], "manylinux2014_" + cfg["arch"], "win_amd64"], rng.choice([2, 3]))
             if "any" not in plats:
@@ -1054,14 +1133,14 @@ def _shrink(R, s: Dict[str, Any]) -> Dict[str, Any]:
         changed = False
         for i in range(len(files)):
             t = files[:i] + files[i + 1:]
-            cand = {"kind": "rank", "cfg": s["cfg"], "files": t, "shuffled": list(reversed(t)), "unpatched": s.get("unpatched", False)}
+            cand = dict(s, files=t, shuffled=list(reversed(t)))
             try:
                 if len(t) >= 2 and oracle_case(R, cand):
                     files, changed = t, True
                     break
             except Exception:
                 pass
-    out = {"kind": "rank", "cfg": s["cfg"], "files": files, "shuffled": list(reversed(files)), "unpatched": s.get("unpatched", False)}
+    out = dict(s, files=files, shuffled=list(reversed(files)))
     return out if oracle_case(R, out) else s
 
 
@@ -1089,10 +1168,19 @@ def _search(ctx: Ctx) -> Optional[Dict[str, Any]]:
             if rd is not None and "/" not in fn:
                 suspects += _suspects_from_wheel(R, cfg, fn, rd[3], rd[4], rd[5])
         if mm["where"] in ("sort-candidates", "file-sort") and c:
-            cfg = json.loads(c[0])
-            files = [f for f in c[1] if isinstance(f, str)]
-            if len(files) >= 2:
-                suspects.append({"kind": "rank", "cfg": cfg, "files": files, "shuffled": list(reversed(files)), "guarded": True})
+            if c[0] == "corpus":         # ("corpus", witness id, files): the witness file carries the configuration
+                w = [x for x in load_corpus() if x.get("id") == c[1]]
+                cfg = w[0]["cfg"] if w else None
+                files = list(c[2])
+            else:
+                try:
+                    cfg = json.loads(c[0])
+                except (TypeError, ValueError):
+                    cfg = None
+                files = [f for f in c[1] if isinstance(f, str)]
+            if cfg is not None and len(files) >= 2:
+                suspects.append({"kind": "rank", "cfg": cfg, "files": files, "shuffled": list(reversed(files)), "guarded": True,
+                                 "perms": 24, "through_repo": True})
     for s in suspects:
         why = _guarded_oracle(R, s)
         if why:
@@ -1125,6 +1213,13 @@ def _search(ctx: Ctx) -> Optional[Dict[str, Any]]:
             why = oracle_case(R, s)
             if why:
                 return {"input": s, "why": why}
+    # 2c. running interpreter: equally specific wheels, every listing order, through sort_candidates and get_dist
+    for _ in range(6):
+        s = equal_score_case(rng, rcfg)
+        s["unpatched"] = True
+        why = oracle_case(R, s)
+        if why:
+            return {"input": s, "why": why}
     # 3. fresh inputs
     for s in oracle_cases(rng, R, ctx.n(6000, 60000)):
         why = oracle_case(R, s)
